@@ -10,8 +10,10 @@
     one character behind it, and [nofuse prev p tail] names, per kind of token text p, what that character must not be;
     then the token is the same whatever follows (C11_token_boundary_is_local) and a run of blanks after it can be removed
     (C11_blanks_between_tokens_are_optional): removing blanks where the two tokens cannot fuse, for every pair of tokens.
-    Still stream-only: comment blocks between statements are dropped by the parser at statement starts only -- a comment
-    inside a statement is a syntax error in some positions -- the layout stream places them. *)
+    A comment block in front of any text is one comment token whatever follows (C11_comment_block_is_one_token), and the
+    parser drops a comment token at a statement start (C11_parser_drops_comments): comment blocks between statements are
+    inert.  Stream-only: which positions INSIDE a statement tolerate a comment (the parser drops them at statement starts
+    only; the layout stream places them). *)
 From Pakhi Require Import Base Float64 Syntax Tables Lexer Parser Interp.
 From Pakhi.Proofs Require Import LexLayout LexSpans LexFuse WF Sim2Defs Sim2 Compose.
 Local Open Scope nat_scope.
@@ -109,3 +111,10 @@ Proof.
   unfold nofuse, stops_num, ahead. vm_compute. repeat split; auto; intros H; repeat match goal with H : _ /\ _ |- _ => destruct H end; try discriminate.
   all: match goal with H : _ \/ _ |- _ => destruct H; discriminate end.
 Qed.
+
+(* a comment block that is a token on its own is the same token in front of any text *)
+Theorem C11_comment_block_is_one_token : forall c rest line file prev tk l,
+  consume (c_hash :: c) line file prev = Ok (Some tk, S (length c), l) ->
+  consume (c_hash :: c ++ rest) line file prev = Ok (Some tk, S (length c), l) /\ t_kind tk = TComment.
+Proof. exact comment_in_front. Qed.
+Print Assumptions C11_comment_block_is_one_token.
